@@ -117,4 +117,15 @@ PROPS["C11"] = {
                                 "no goroutine is left behind by a failed handshake (observed: goroutine census in the faults suite)"],
 }
 
+PROPS["C02"] = {
+    "modules": ["Gws.Props.C02", "Gws.Props.C02Inflate"],
+    "theorems": ["Session.windows_in_sync", "Session.inSync_step", "Session.hist_is_compressed_payloads", "Session.send_dict_suffix",
+                 "Spec.Inflate.bounded_window_suffices", "Spec.Inflate.history_prefix_irrelevant", "Spec.Inflate.history_extension_harmless",
+                 "Spec.Inflate.window_determines_output", "Spec.Inflate.bounded_window_iff"],
+    "suites": ["sess", "win"],
+    "trusted": ["klauspost/compress/flate: the compressor emits RFC 1951 whose back-references stay within its window and dictionary (Codec law L2), the inflater implements RFC 1951 (L3) - SAMPLED, not proved: every compressed frame in the read/sess/write suites goes through the real library and (read, write) through the Lean inflater",
+                "which frames are compressed and which window update follows which write: Session model, tied by the sess suite (all four windows read back through the accessor hook at quiescence)"],
+    "clauses_without_theorem": ["the DEFLATE library's own conformance (L2/L3): sampled by the suites, not proved"],
+}
+
 EXTRA = {}
